@@ -3,6 +3,7 @@ package rules
 import (
 	"go/constant"
 	"go/types"
+	"strings"
 
 	"golang.org/x/tools/go/ssa"
 
@@ -164,4 +165,70 @@ func copyAddressedByFlag(r *core.Run) {
 		}
 	}
 	r.Floor(rule, cnt, 3)
+}
+
+// memberCountFollowsMembership: CheckMemberCountQuorum compares MemberCountQuorum with a
+// counter that is refreshed by setNumMembers. Every change of the member list a member
+// observes (join, leave, update — on every member, coordinator or not) must be followed by
+// that refresh before the event handler returns; a member whose counter is only refreshed
+// on the coordinator's path keeps serving requests after it fell below the quorum.
+func memberCountFollowsMembership(r *core.Run) {
+	const rule = "member-count-follows-membership"
+	fn := r.Need(rule, rtPkg+".(*RoutingTable).processClusterEvent")
+	if fn == nil {
+		return
+	}
+	f := fn.SSA
+	refresh := callTo(rtPkg + ".(*RoutingTable).setNumMembers")
+	cnt := 0
+	n := counter{}
+	for _, sf := range core.AllSSA(f) {
+		_ = sf
+	}
+	core.Instrs(f, func(in ssa.Instruction) {
+		c, ok := in.(ssa.CallInstruction)
+		if !ok || in.Parent() != f {
+			return
+		}
+		o := core.CalleeObj(c)
+		if o == nil {
+			return
+		}
+		q := core.QualName(o)
+		if q != "internal/cluster/routingtable.(*Members).Add" && q != "internal/cluster/routingtable.(*Members).Delete" &&
+			q != "internal/discovery.(*Members).Add" && q != "internal/discovery.(*Members).Delete" &&
+			!(strings.HasSuffix(q, ".Add") || strings.HasSuffix(q, ".Delete")) {
+			return
+		}
+		if !strings.Contains(q, "Members") && !strings.Contains(q, "members") {
+			return
+		}
+		cnt++
+		passed := false
+		stop := func(x ssa.Instruction) bool {
+			if x == in {
+				passed = true
+				return false
+			}
+			if x.Block() == in.Block() && !passed {
+				return false
+			}
+			return refresh(x)
+		}
+		leak := pathSearch(in.Block(), nil, stop, func(b *ssa.BasicBlock) bool {
+			if len(b.Instrs) == 0 {
+				return false
+			}
+			_, isRet := b.Instrs[len(b.Instrs)-1].(*ssa.Return)
+			return isRet
+		}, nil)
+		r.Check(leak == nil, rule, n.next(fn.Name+" "+o.Name()+" is followed by setNumMembers"), site(r, instrPos(in)),
+			"the member counter is refreshed before the event handler returns",
+			"the member list changes but the handler can return without refreshing the counter CheckMemberCountQuorum reads"+blockAt(r, leak)+": this member keeps passing the member-count check after members left")
+	})
+	r.Floor(rule, cnt, 2)
+	// and the refresh is not tied to the coordinator: who else calls it is irrelevant, but the
+	// call inside processClusterEvent must exist
+	r.Check(len(findInstrs(f, false, refresh)) > 0, rule, fn.Name+" refreshes the counter itself", site(r, f.Pos()),
+		"processClusterEvent calls setNumMembers", "the event handler of every member no longer refreshes the member counter (only some other path, e.g. the coordinator's routing update, does)")
 }
